@@ -103,7 +103,10 @@ _obs('__round0__', 'round0', kind='op', cost=40)
 
 
 def _operand(g, nz=False):
-    """Right operand of an Angle operator: Angle, int or float."""
+    """Right operand of an Angle operator: Angle, int or float (sometimes the receiver itself)."""
+    if g.rng.random() < 0.06:
+        g.probes.append('same_object_both_operands')
+        return {"same": "recv"}
     r = g.rng.random()
     if nz:
         s = g.rng.choice([-1.0, 1.0])
